@@ -84,7 +84,7 @@ func expectedAnswer(s *MState, path string, key []byte) (string, bool) {
 		if len(key) == 0 {
 			var ids []string
 			for _, pk := range sortedKeys(s.Proposals) {
-				ids = append(ids, "voting:"+pk)
+				ids = append(ids, "open:"+pk)
 			}
 			for _, pk := range sortedKeys(s.FrozenProps) {
 				ids = append(ids, "frozen:"+pk)
@@ -92,7 +92,7 @@ func expectedAnswer(s *MState, path string, key []byte) (string, bool) {
 			return fmt.Sprint(ids), true
 		}
 		if p := s.Proposals[k]; p != nil {
-			return "voting " + propStr(p), true
+			return "open " + propStr(p), true
 		}
 		if p := s.FrozenProps[k]; p != nil {
 			return "frozen " + propStr(p), true
@@ -100,6 +100,30 @@ func expectedAnswer(s *MState, path string, key []byte) (string, bool) {
 		return "", false
 	}
 	return "", false
+}
+
+// normStatus: a proposal is either still open (whatever the answer calls the phase: waiting, voting) or frozen
+func normStatus(s string) string {
+	if s == "frozen" {
+		return s
+	}
+	return "open"
+}
+
+// zeroAnswer: is the answer for a key that does not exist the zero value of its kind? (A node may answer a
+// missing record with an error, with nothing, or with an all-zero record: all three say "nothing is recorded".)
+func zeroAnswer(path string, key, value []byte) bool {
+	got, err := observedAnswer(path, key, value)
+	if err != nil {
+		return false
+	}
+	switch path {
+	case "reward":
+		return strings.HasPrefix(got, "reward i=0 w=0 s=0 c=0 h=") || strings.HasPrefix(got, "reward i= w= s= c= h=")
+	case "delegatee":
+		return (strings.HasPrefix(got, "deleg self=0 total=0 pub=") || strings.HasPrefix(got, "deleg self= total= pub=")) && strings.HasSuffix(got, "stakes=[]")
+	}
+	return false
 }
 
 func propFromJSON(m map[string]interface{}) *MProposal {
@@ -229,14 +253,14 @@ func observedAnswer(path string, key []byte, value []byte) (string, error) {
 				for _, x := range ps {
 					xm, _ := x.(map[string]interface{})
 					pm, _ := xm["proposal"].(map[string]interface{})
-					ids = append(ids, jstr(xm["status"])+":"+propFromJSON(pm).TxHash)
+					ids = append(ids, normStatus(jstr(xm["status"]))+":"+propFromJSON(pm).TxHash)
 				}
 			}
 			return fmt.Sprint(ids), nil
 		}
 		m, _ := v.(map[string]interface{})
 		pm, _ := m["proposal"].(map[string]interface{})
-		return jstr(m["status"]) + " " + propStr(propFromJSON(pm)), nil
+		return normStatus(jstr(m["status"])) + " " + propStr(propFromJSON(pm)), nil
 	}
 	return "", fmt.Errorf("unknown path")
 }
@@ -329,7 +353,7 @@ func (c *Ctx) c19Deterministic(i int, hr *HistRun, o *HistOpts, cat []queryTpl, 
 		st := hr.M.Hist[effH]
 		want, ok := expectedAnswer(st, q.Path, q.Data)
 		if !ok {
-			if res.Code == 0 && len(res.Value) > 0 && string(res.Value) != "null" {
+			if res.Code == 0 && len(res.Value) > 0 && string(res.Value) != "null" && !zeroAnswer(q.Path, q.Data, res.Value) {
 				return viol("answer-for-absent-key", fmt.Sprintf("code 0 value %q although the key does not exist at that height", res.Value))
 			}
 			c.Distinct(q.Path + "/" + moment + "/absent")
@@ -569,7 +593,7 @@ func (c *Ctx) c19Concurrent(i int, hr *HistRun, o *HistOpts, cat []queryTpl) {
 				c.Violation(i, "query:concurrent-stale-or-wrong-value", fmt.Sprintf("%s: claims height %d and says %s (%v)\n   committed state at %d says %s", tag, ev.Height, got, perr, ev.Height, want), hr.replayDoc())
 				return
 			}
-		} else if ev.Code == 0 && len(ev.Value) > 0 && string(ev.Value) != "null" {
+		} else if ev.Code == 0 && len(ev.Value) > 0 && string(ev.Value) != "null" && !zeroAnswer(ev.Path, ev.Data, ev.Value) {
 			c.Violation(i, "query:concurrent-answer-for-absent-key", fmt.Sprintf("%s at height %d: value %q", tag, ev.Height, ev.Value), hr.replayDoc())
 			return
 		}
